@@ -59,6 +59,9 @@ CHECKS = {
     "C17": ("exploration", "bounded-exhaustive enumeration of operation histories (12-op alphabet, length <=5 quick / <=6 thorough) over three described classes x four code paths + Hypothesis-generated long histories; oracle = two-variable state model",
             "Every history of construct/construct-with-keyword/unpack/set tracked/set described/delete/pack/read operations up to the bound is executed from scratch on AutoLength-over-Data, AutoLength-over-repeated and Auto(func) classes under generated and generic pack/unpack; after every step the attribute, pack() bytes, the tracked field and the absence of __dict__ are compared with the model.",
             "Exhaustive up to the stated bound, sampled (length <=50) beyond.", "DESIGN.md section 5 C17"),
+    "C18": ("exploration", "Hypothesis-generated flat declarations x target trees biased to regex metacharacters x fixed/Any subsets x corpora; differential: filter with vs without the regexp pre-filter, plus direct match of the target",
+            "For every generated pattern packet (fields fixed to the target's values or left as Any / Any(startswith|contains|endswith)) the corpus (target encoding, re-drawn trees keeping the fixed fields, single fixed field changed, truncations, random and metacharacter strings) is filtered with and without the regexp: the results must be identical in order and value; building the expression must not raise; the regexp must match the target's encoding.",
+            "The plain filter is the reference. One open known finding (F12, left-context assertions in regex delimiters) is matched by its root-cause signature only.", "DESIGN.md section 5 C18"),
 }
 
 NOT_YET = {}
